@@ -109,6 +109,19 @@ def exec_with_flags(prop, tier, seed, indices, pyflags, timeout=1800):
     return out, None
 
 
+def env_compare_calls(prop, rn, o):
+    """Per-call digests of one scenario from this interpreter (rn) and from one started with -O (o): first call that both accept
+    and that returns different results, as a violation; None if there is none."""
+    for key_, (d_o, x_o, ent_) in sorted((o.get('env_digests') or {}).items()):
+        d_n, x_n, _ = (rn.get('env_digests') or {}).get(key_, (None, None, None))
+        if d_n is None or d_n == d_o or 'AssertionError' in (x_o, x_n):
+            continue
+        return {'property': prop, 'oracle': 'environment-dependence',
+                'detail': '[interpreter started with -O] %s (call %s) returns another result than in an interpreter started without -O (%s / %s)'
+                          % (ent_, key_[:120], x_o or 'normal return', x_n or 'normal return')}
+    return None
+
+
 def _work(args):
     """Worker task: a list of scenario indices."""
     prop, tier, seed, indices, keep_samples = args[:5]
@@ -247,6 +260,24 @@ def do_replay(prop, path):
     with open(path) as f:
         doc = json.load(f)
     flags = doc['scenario'].get('pyflags')
+    if doc['scenario'].get('env_compare'):
+        # the recorded violation is a difference between two interpreters: execute the scenario here and under -O, compare per call
+        sc0 = doc['scenario']
+        scen_n = make_scenario(engine, prop, sc0['tier'], sc0['seed'], sc0['index'])
+        rn = execute_guarded(engine, scen_n)
+        out, err = exec_with_flags(prop, sc0['tier'], sc0['seed'], [sc0['index']], '-O')
+        if out is None:
+            print('HARNESS-ERROR python -O pass: %s' % err)
+            return 2
+        v = env_compare_calls(prop, rn, out[0])
+        if v is None:
+            print('REPLAY-PASSED property=%s file=%s (both interpreters agree on every call)' % (prop, path))
+            return 0
+        print('VIOLATION property=%s replay=%s' % (prop, path))
+        print('  oracle=%s' % v['oracle'])
+        print('  detail=%s' % v['detail'][:2000])
+        print('  identical-to-recorded=%s' % (v['detail'] == doc['expected'].get('detail', '')))
+        return 1
     if flags == '-O' and not sys.flags.optimize:
         # the recorded run needs an interpreter started with -O: re-execute this very command there
         p = subprocess.run([os.path.join(ROOT, 'check'), prop, '--replay', path], env=dict(os.environ, VERIF_PYFLAGS='-O'),
@@ -426,6 +457,15 @@ def run_check(prop, tier):
                         harness.append('python -O pass, scenario %d: %s' % (o['index'], o['harness']))
                     if not o.get('optimize'):
                         harness.append('HARNESS-ERROR python -O pass ran without -O')
+                    if o.get('env_digests') and not results[o['index']]['violations'] and not o['violations']:
+                        # engines that report per-call result digests: a call that is accepted by both interpreters returns the same
+                        # result in both (an AssertionError on one side is argument validation the other side does not have)
+                        scen_n = make_scenario(engine, prop, tier, seed, o['index'])
+                        rn = execute_guarded(engine, scen_n)
+                        v_env = env_compare_calls(prop, rn, o)
+                        if v_env is not None:
+                            results[o['index']]['scenario'] = dict(scen_n, pyflags='-O', env_compare=True, tier=tier)
+                            viols.append((o['index'], v_env))
                     for v in o['violations']:
                         if results[o['index']]['violations']:
                             continue            # already reported by the ordinary pass
